@@ -17,6 +17,17 @@ extern json_object *c09_twin_h(json_object *o);
 static const char *keys[] = {"a", "b", "c", "a/b", "m~n", "", "0", "-", "x", "~1", "/", "~", "~0", "~01", "x~1y", "1"};
 #define NKEYS 16
 
+/* now and then a container is wide: more members than the first table size holds (growth, longer probe sequences),
+ * more elements than the first array capacity */
+static int wide_n(void) { return vh_below(25) == 0 ? 12 + (int)vh_below(30) : (int)vh_below(4); }
+static const char *wide_key(int i)
+{
+	static char kb[8][12];
+	static int rot;
+	char *k = kb[rot++ & 7];
+	snprintf(k, 12, "m%d", i);
+	return k;
+}
 static json_object *gen_val(int depth)
 {
 	uint32_t r = vh_below(depth <= 0 ? 5 : 9);
@@ -30,17 +41,17 @@ static json_object *gen_val(int depth)
 	case 5: case 6:
 	{
 		json_object *a = json_object_new_array();
-		int n = (int)vh_below(4);
+		int n = wide_n();
 		for (int i = 0; i < n; i++)
-			json_object_array_add(a, gen_val(depth - 1));
+			json_object_array_add(a, gen_val(n > 4 ? 0 : depth - 1));
 		return a;
 	}
 	default:
 	{
 		json_object *o = json_object_new_object();
-		int n = (int)vh_below(4);
+		int n = wide_n();
 		for (int i = 0; i < n; i++)
-			json_object_object_add(o, keys[vh_below(NKEYS)], gen_val(depth - 1));
+			json_object_object_add(o, n > 4 ? wide_key(i) : keys[vh_below(NKEYS)], gen_val(n > 4 ? 0 : depth - 1));
 		return o;
 	}
 	}
